@@ -21,6 +21,8 @@ import (
 	"verif/harness/internal/fonts"
 
 	"github.com/benoitkugler/webrender/backend"
+	"github.com/benoitkugler/webrender/html/boxes"
+	"github.com/benoitkugler/webrender/utils"
 
 	"verif/harness/internal/drv"
 	"verif/harness/internal/rec"
@@ -115,6 +117,23 @@ func c14LinksMain(args []string) int {
 						seen[a.Name]++
 						if math.IsNaN(float64(a.X)) || math.IsInf(float64(a.X), 0) || math.IsNaN(float64(a.Y)) || math.IsInf(float64(a.Y), 0) {
 							out.Disagree("C14:links:anchor-position-not-finite", body, detail)
+						}
+					}
+					// an anchor is at the top left corner of the FIRST box of its page that carries the id (page height 100px, 0.75pt per px)
+					first := map[string][2]float64{}
+					drv.Walk(pages[p], func(bx boxes.Box, _ int) bool {
+						if f := bx.Box(); f.Element != nil {
+							if id := (*utils.HTMLNode)(f.Element).Get("id"); id != "" {
+								if _, has := first[id]; !has {
+									first[id] = [2]float64{float64(f.BorderBoxX()) * 0.75, (100 - float64(f.BorderBoxY())) * 0.75}
+								}
+							}
+						}
+						return true
+					})
+					for _, a := range as {
+						if w, ok := first[a.Name]; ok && (math.Abs(float64(a.X)-w[0]) > 0.01 || math.Abs(float64(a.Y)-w[1]) > 0.01) {
+							out.Disagree("C14:links:anchor-position", fmt.Sprintf("anchor %q of page %d is at (%g, %g)pt, its first box is at (%g, %g)pt: %s", a.Name, p+1, float64(a.X), float64(a.Y), w[0], w[1], body), detail)
 						}
 					}
 					sort.Strings(names)
@@ -348,7 +367,7 @@ func c14ProtoMain(args []string) int {
 				out.Fatal("bad scenario: " + err.Error())
 				return
 			}
-			doc = c13HTML(&s, 0)
+			doc = c13HTML(&s, 4*(out.Cur%2)) // (every other table has column boxes with backgrounds)
 		case "c16":
 			var s stScn
 			if err := json.Unmarshal(line, &s); err != nil {
